@@ -841,12 +841,12 @@ class Table(Vector):
 		# is materialised: the value is read twice when the assignment is rehearsed below.)
 		if isinstance(row_spec, Vector):
 			row_spec = row_spec.copy()
+		if isinstance(value, Iterator):
+			value = list(value)
 		if isinstance(value, Vector):
 			value = value.copy()
 		elif isinstance(value, (list, tuple)):
 			value = [v.copy() if isinstance(v, Vector) else v for v in value]
-		elif isinstance(value, Iterator):
-			value = list(value)
 
 		# More than one column: rehearse the whole assignment on scratch copies of the target
 		# columns first. Whatever one of them refuses (a value of the wrong kind, a wrong length, a
